@@ -521,6 +521,45 @@ def unknown_index_fresh(ck, i):
         ck.violation('acquire-for-an-unknown-index-left-an-ike-sa-or-sent-something', {'table': [x.state.name for x in a.ctl.ike_sas], 'sent': len(sim.net)}, sim.case)
 
 
+def default_index_collision(ck, i):
+    """The index the daemon draws for an entry that has none must not be one that another entry carries. The harness seeded the daemon's generator, so it knows
+    what the next draws would be and writes exactly those values as the EXPLICIT index of a neighbouring entry (before or after the index-less one, in the same or in
+    another connection): a configuration like any other, for which the draw happens to collide."""
+    seed = ck.seed * 59 + i
+    probe = S._SeededRandomModule(seed + 2)          # what configuration.py's generator will produce in this run
+    draws = [probe.randint(0, 2 ** 20) for _ in range(6)]
+    kind = ('explicit-after-default', 'explicit-before-default', 'other-connection', 'two-defaults-and-an-explicit')[i % 4]
+    ent = lambda k, **kw: dict(dict(my_subnet=f'10.{k}.0.0/24', peer_subnet=f'172.16.{k}.0/24', ip_proto='tcp', my_port=0, peer_port=443, mode='tunnel', ipsec_proto='esp',
+                                    encr=['aes256'], integ=['sha256'], lifetime=300), **kw)
+    if kind == 'explicit-after-default':
+        conns = {'c0': [ent(1), ent(2, index=draws[0])]}
+    elif kind == 'explicit-before-default':
+        conns = {'c0': [ent(1, index=draws[1]), ent(2)]}
+    elif kind == 'other-connection':
+        conns = {'c0': [ent(1)], 'c1': [ent(2, index=draws[0])]}
+    else:
+        conns = {'c0': [ent(1), ent(2), ent(3, index=draws[1])]}
+    conf = {}
+    for j, (cn, prot) in enumerate(conns.items()):
+        conf[cn] = dict(my_addr='192.0.2.1', peer_addr=f'192.0.2.{j + 2}', my_auth={'id': 'alice@example.org', 'psk': 'k' * 12}, peer_auth={'id': f'peer{j}.example.org', 'psk': 'p' * 12}, protect=prot)
+    sim = S.Sim(seed)
+    sim.case = {'family': 'default-index-collision', 'kind': kind, 'conf': conf, 'values_the_generator_yields': draws[:3]}
+    try:
+        ep = sim.add('A', ['192.0.2.1'], conf)
+    except Exception as ex:
+        ck.count('default_index.configuration_refused')          # refusing such a configuration would be a sound answer too
+        return
+    outb = [rec['policy']['index'] for (sk_, d_), rec in ep.kernel.spd.items() if d_ == 1]
+    ck.count('default_index.configurations')
+    ck.nontrivial(('default-index', kind, i))
+    if len(outb) != sum(len(p_) for p_ in conns.values()):
+        ck.violation('not-one-outbound-policy-per-entry:default-index', {'outbound_policies': len(outb)}, sim.case)
+    elif len(set(outb)) != len(outb):
+        ck.violation(f'two-outbound-policies-carry-the-same-index:default-index-equals-an-explicit-one:{kind}', {'indices': sorted(x >> 3 for x in outb)}, sim.case)
+    else:
+        ck.count('default_index.all_different')
+
+
 def lenient_responder(ck, i):
     """A responder that is conformant but does not narrow: it answers the offer for an entry `ip_proto: any` + port with protocol 0 / ports 0-65535 (or with
     another port). Whatever the initiator does with such an answer, no SA reaches its kernel whose selector has another port than the entry's."""
@@ -591,6 +630,9 @@ def run(ck):
     for i in range(48 if not thorough else 960):
         if ck.mine(i + 3):
             lenient_responder(ck, i)
+    for i in range(32 if not thorough else 640):
+        if ck.mine(i + 1):
+            default_index_collision(ck, i)
     for i in range(30 if not thorough else 300):
         if ck.mine(i + 5):
             acquire_in_a_busy_turn(ck, i)
@@ -601,6 +643,7 @@ def run(ck):
 
 def verdict(ck):
     c = ck.counters
+    ck.floor('configurations whose explicit index is the value the daemon would draw for a neighbouring entry', c['default_index.configurations'] + c['default_index.configuration_refused'], 24)
     ck.floor('SAs of an entry with lifetime -1 whose kernel lifetime was checked', c['acquire.no_expiry_lifetimes_checked'], 20)
     ck.floor('configurations with entries that leave the index to the daemon', c['spd.configurations_with_entries_without_an_explicit_index'], 60)
     ck.floor('answers of a responder that does not narrow an any-protocol entry with a port', c['lenient_responder.answers'], 40)
